@@ -388,7 +388,8 @@ LEVEL_TEXT = (
     "Exploration over call histories: random sequences of modelling calls share one set of argument objects; after every "
     "call deep (NaN-stable, bit-exact) fingerprints of all shared arguments and of every built-in component and mixture are "
     "compared with the initial ones, one call is repeated later in the history, and every call's result is compared bitwise "
-    "with the same call executed as the only call of a fresh interpreter with a different hash seed. Held means no "
+    "with the same call executed as the only call of a fresh interpreter with a different hash seed; after every call the "
+    "harness overwrites the containers of the returned objects (the caller owns them), so an object handed out twice is seen. Held means no "
     "fingerprint changed and no result depended on the preceding history in this run."
 )
 LEVEL_NOTE = "Trusted: bit-reproducibility of numpy/scipy across processes on this machine with single-threaded BLAS; world construction is identical in both processes."
